@@ -16,7 +16,7 @@ from glue.core.decorators import memoize, clear_all_caches
 from glue.core.visual import VisualAttributes
 from glue.config import settings
 from glue.utils import (categorical_ndarray, combine_slices, floodfill, iterate_chunks,
-                        polygon_line_intersections, view_shape)
+                        polygon_line_intersections, view_shape, broadcast_arrays_minimal)
 
 
 __all__ = ['Subset', 'SubsetState', 'RoiSubsetStateNd', 'RoiSubsetState', 'CategoricalROISubsetState',
@@ -576,24 +576,15 @@ class RoiSubsetStateNd(SubsetState):
         if not self.roi.defined():
             return np.zeros(raw_comps[0].shape, dtype=bool)
 
-        if raw_comps[0].ndim == data.ndim and all([att in data.pixel_component_ids for att in self._atts]):
-            # This is a special case - the ROI is defined in pixel space, so we
-            # can apply it to a single slice and then broadcast it to all other
-            # dimensions. We start off by extracting a slice which takes only
-            # the first elements of all dimensions except the attributes in
-            # question, for which we take all the elements. We need to preserve
-            # the dimensionality of the array, hence the use of slice(0, 1).
-            # Note that we can only do this if the view (if present) preserved
-            # the dimensionality, which is why we checked that raw_comps[0].ndim == data.ndim.
-            axis_ids = [att.axis for att in self._atts]
-            subset = []
-            for i in range(data.ndim):
-                if i in axis_ids:
-                    subset.append(slice(None))
-                else:
-                    subset.append(slice(0, 1))
-            for i in range(len(raw_comps)):
-                raw_comps[i] = raw_comps[i][tuple(subset)]
+        if all([att in data.pixel_component_ids for att in self._atts]):
+            # This is a special case - the ROI is defined in pixel space, so the
+            # pixel coordinates are constant (broadcast) along all dimensions
+            # except the ones of the attributes in question. We collapse exactly
+            # the dimensions along which all coordinates are broadcast, apply the
+            # ROI to the smaller arrays and broadcast the result back below. This
+            # is decided from the arrays themselves, so that a view made of index
+            # arrays (whose result is not broadcast) is evaluated point by point.
+            raw_comps = list(broadcast_arrays_minimal(*raw_comps))
 
         if self.pretransform:
             transformed_points = []
